@@ -289,6 +289,15 @@ func (fr *Frame) assignsObligation(entry *MemState, ct *Contract) {
 			}
 		}
 	}
+	hasMem := false
+	for _, a := range ct.Assigns {
+		if a.Mem {
+			hasMem = true
+		}
+	}
+	if !hasMem {
+		fr.goMemFrameObligation(entry, ct)
+	}
 	var ks []string
 	for k := range names {
 		ks = append(ks, k)
@@ -339,6 +348,82 @@ func (fr *Frame) assignsObligation(entry *MemState, ct *Contract) {
 		}
 		if len(parts) > 0 {
 			ex.oblige("frame", k, and(parts...), "true", "model field "+k+" changed only where assigns allows", fr.fn.Pos(), nil)
+		}
+	}
+}
+
+// leafAddrs enumerates the (leaf array, address) pairs of a location of Go type t at address addr.
+func (ex *Exec) leafAddrs(t types.Type, addr string, out func(arr, addr string)) {
+	switch u := t.Underlying().(type) {
+	case *types.Struct:
+		for i := 0; i < u.NumFields(); i++ {
+			ex.leafAddrs(u.Field(i).Type(), ex.D.fieldAddr(t, i, addr), out)
+		}
+	case *types.Array:
+		// elements of arrays are not enumerated (coarse: nothing listed)
+	default:
+		out(ex.leafArray(t), addr)
+	}
+}
+
+// goMemFrameObligation: a contract whose assigns clause does not contain "mem" promises that Go memory that existed at
+// entry is unchanged at every return, except the listed locations (and the spare capacity of slices listed as sparecap).
+func (fr *Frame) goMemFrameObligation(entry *MemState, ct *Contract) {
+	ex := fr.ex
+	names := map[string]bool{}
+	for _, r := range fr.returns {
+		if r.mem.memLost || r.mem.lost {
+			ex.oblige("frame", "gomem", "false", r.reach, "the assigns clause does not list mem, but the function calls something that may write any Go memory", fr.fn.Pos(), nil)
+			return
+		}
+		for k := range r.mem.arrays {
+			if strings.HasPrefix(k, "M_") || strings.HasPrefix(k, "MH_") || strings.HasPrefix(k, "MV_") || k == "ML" {
+				names[k] = true
+			}
+		}
+	}
+	exc := map[string][]string{} // array -> conditions on address "a" under which a change is allowed
+	ec := fr.evalCtx(entry, entry)
+	for _, a := range ct.Assigns {
+		switch {
+		case a.Deref != nil:
+			lv := ec.lvalOf(a.Deref)
+			ex.leafAddrs(lv.t, lv.addr, func(arr, addr string) {
+				exc[arr] = append(exc[arr], fmt.Sprintf("(= a %s)", addr))
+			})
+		case a.Alloc != nil:
+			pv := ec.coerce(ec.eval(a.Alloc), SInt)
+			for k := range names {
+				if strings.HasPrefix(k, "M_") && (a.AllocClass == "" || a.AllocClass == k) {
+					exc[k] = append(exc[k], fmt.Sprintf("(= (root a) (root %s))", pv.T))
+				}
+			}
+		case a.Spare != nil:
+			sv := ec.eval(a.Spare)
+			if st, ok := sv.G.Underlying().(*types.Slice); ok {
+				arrs := map[string]bool{}
+				ex.leafArraysOf(st.Elem(), arrs, map[string]bool{})
+				for an := range arrs {
+					exc[an] = append(exc[an], inSpare("a", sv.T))
+				}
+			}
+		}
+	}
+	for _, k := range sortedKeys(names) {
+		var parts []string
+		for _, r := range fr.returns {
+			a, b := ex.memGet(entry, k), ex.memGet(r.mem, k)
+			if a == b {
+				continue
+			}
+			conds := []string{"(<= (root a) allocbase)"}
+			for _, e := range exc[k] {
+				conds = append(conds, not(e))
+			}
+			parts = append(parts, implies(r.reach, fmt.Sprintf("(forall ((a Int)) (=> %s (= (select %s a) (select %s a))))", and(conds...), a, b)))
+		}
+		if len(parts) > 0 {
+			ex.oblige("frame", "gomem-"+k, and(parts...), "true", "Go memory "+k+" that existed at entry changed only where assigns allows", fr.fn.Pos(), nil)
 		}
 	}
 }
